@@ -177,6 +177,15 @@ def rule_impls(facts, rep):
         ty = i["self_ty"]
         seen.add(ty)
         path = [a["path"] for a in i["assoc"] if a["name"] == "write_colored"][0]
+        rep.guarded("impls", path, lambda i=i, ty=ty, path=path: one_impl(facts, rep, ty, path))
+    want = {"&mut T", "alloc::boxed::Box<T>", "(dyn std::io::Write + 'static)", "(dyn std::io::Write + core::marker::Send + 'static)",
+            "(dyn std::io::Write + core::marker::Send + core::marker::Sync + 'static)", "std::fs::File", "alloc::vec::Vec<u8>",
+            "std::io::stdio::Stdout", "std::io::stdio::Stderr", "std::io::stdio::StdoutLock<'_>", "std::io::stdio::StderrLock<'_>"}
+    rep.check(seen == want, "impls", "anstyle_wincon::stream::WinconStream", "eleven-impls", f"{sorted(seen ^ want)}", "")
+
+
+def one_impl(facts, rep, ty, path):
+    if True:
         b = facts.body("anstyle_wincon", path)
         rep.fn(path)
         e = ac.single_expr(b["hir"])
@@ -201,7 +210,3 @@ def rule_impls(facts, rep):
         want_kind = {"&mut T": "deref", "alloc::boxed::Box<T>": "deref", "std::io::stdio::Stdout": "lock", "std::io::stdio::Stderr": "lock"}.get(ty, "ansi")
         rep.check(ok and kind == want_kind, "impls", path, ty.replace(" ", "_"),
                   f"a single delegation ({want_kind}) passing (fg, bg, data) positionally; found {kind}: {hirpp.expr(e)[:100]}", loc(b))
-    want = {"&mut T", "alloc::boxed::Box<T>", "(dyn std::io::Write + 'static)", "(dyn std::io::Write + core::marker::Send + 'static)",
-            "(dyn std::io::Write + core::marker::Send + core::marker::Sync + 'static)", "std::fs::File", "alloc::vec::Vec<u8>",
-            "std::io::stdio::Stdout", "std::io::stdio::Stderr", "std::io::stdio::StdoutLock<'_>", "std::io::stdio::StderrLock<'_>"}
-    rep.check(seen == want, "impls", "anstyle_wincon::stream::WinconStream", "eleven-impls", f"{sorted(seen ^ want)}", "")
